@@ -11,6 +11,8 @@ structure KernelRes (ncols maxrow : Nat) (offs : List Nat) (o : KOut) (np n : Na
   written : o.written = (n : Int)
   shape : Shape ncols maxrow offs o.inds o.vals
   cols : ∀ c, c < ncols → ColOK offs o.inds o.vals c (E c)
+  /-- the entries of every column stay strictly inside the column's value budget -/
+  caps : ∀ c, c < ncols → offAt offs c + (E c).flatten.length < offAt offs (c + 1)
 
 /-- what the window holds of the record that follows its complete records: nothing, or the first `m` bytes of `r` -/
 def tailText : Option (List Cell × Nat) → Bytes
@@ -126,7 +128,7 @@ theorem kernel_general {src : Bytes} {offs : List Nat} {maxrow ncols : Nat} {ind
     have hA0' : ∀ l : List (List Cell), pre ++ ((if hh then renderCells hrow else []) ++ render l) = A0 ++ render l := by
       intro l; rw [← hA0]; simp
     -- the complete records
-    obtain ⟨n2, s2, a, hsteps2, hale, hout⟩ :=
+    obtain ⟨n2, s2, a, hsteps2, hale, hcapsA, hout⟩ :=
       rows_run_g (offs := offs) (maxrow := maxrow) hnc rowsW A0 (tailText nxt) s1 0 A0.length (fun _ => []) htab hsrc1 hcs1
         hstr0
     have hnpall : (if rowsW = [] then A0.length else (A0 ++ render rowsW).length) = (A0 ++ render rowsW).length := by
@@ -193,24 +195,24 @@ theorem kernel_general {src : Bytes} {offs : List Nat} {maxrow ncols : Nat} {ind
       · have hcall := call_of_steps hh pre rest hsrc hsh hnc hz hlead h123 hwe.done
         refine ⟨s3.out, rowsW.length, hcall, hale, ?_, Or.inl ⟨hwe.indsFull, hwe.valsFull, hwe.vfc, ha⟩⟩
         rw [htake, hA0']
-        exact ⟨hwe.np, by simp [KS.out, hwe.hdr, hwe.row], hwe.shape, hwe.cols⟩
+        exact ⟨hwe.np, by simp [KS.out, hwe.hdr, hwe.row], hwe.shape, hwe.cols, hstr2⟩
       · have hcall := call_of_steps hh pre rest hsrc hsh hnc hz hlead h123 hfe.done
         refine ⟨s3.out, rowsW.length, hcall, hale, ?_, Or.inr (Or.inr ⟨hfe.indsFull, hfe.valsFull, j, hfe.jlt, hfe.vfc, ?_⟩)⟩
         · rw [htake, hA0']
-          exact ⟨hfe.np, by simp [KS.out, hfe.hdr, hfe.row], hfe.shape, hfe.cols⟩
+          exact ⟨hfe.np, by simp [KS.out, hfe.hdr, hfe.row], hfe.shape, hfe.cols, hstr2⟩
         · exact hb
     · -- the index buffer is full
       have hcall := call_of_steps hh pre rest hsrc hsh hnc hz hlead h12 hend.done
       refine ⟨s2.out, a, hcall, hale, ?_, Or.inr (Or.inl ⟨hend.indsFull, hend.valsFull, hend.vfc, by omega⟩)⟩
       rw [hA0']
-      exact ⟨hend.np, by simp [KS.out, hend.hdr, hend.row]; omega, hend.shape, hend.cols⟩
+      exact ⟨hend.np, by simp [KS.out, hend.hdr, hend.row]; omega, hend.shape, hend.cols, hcapsA⟩
     · -- a value budget is used up inside record `a`
       rw [hnpa] at hend
       simp only [Nat.zero_add] at hend
       have hcall := call_of_steps hh pre rest hsrc hsh hnc hz hlead h12 hend.done
       refine ⟨s2.out, a, hcall, hale, ?_, Or.inr (Or.inr ⟨hend.indsFull, hend.valsFull, j, hend.jlt, hend.vfc, ?_⟩)⟩
       · rw [hA0']
-        exact ⟨hend.np, by simp [KS.out, hend.hdr, hend.row], hend.shape, hend.cols⟩
+        exact ⟨hend.np, by simp [KS.out, hend.hdr, hend.row], hend.shape, hend.cols, hcapsA⟩
       · have h1 : (rowsW ++ tailRows nxt).take (a + 1) = rowsW.take (a + 1) := by
           rw [List.take_append_of_le_length (by omega)]
         rw [h1]
@@ -246,7 +248,7 @@ theorem kernel_general {src : Bytes} {offs : List Nat} {maxrow ncols : Nat} {ind
     subst hrW
     have hcall := call_blank (offs := offs) (vals := vals) pre rest hsrc hsh hnc hz hblank
     refine ⟨_, 0, hcall, Nat.le_refl _, ?_, Or.inl ⟨rfl, rfl, rfl, rfl⟩⟩
-    refine ⟨by simp [render], rfl, hsh, ?_⟩
+    refine ⟨by simp [render], rfl, hsh, ?_, fun c hc => by simpa [stageRows] using hbud c hc⟩
     intro c hc
     obtain ⟨r, hr, hr0⟩ := hz c hc
     refine ⟨⟨r, hr, ?_⟩, fun k hk => by simp [stageRows] at hk⟩
